@@ -216,6 +216,7 @@ class World:
             for r in cfg["regs"]
         ]
         self.model = [dict() for _ in cfg["regs"]]  # name -> class
+        self.trace = ()  # operations applied so far
 
 
 def make_world(cfg):
@@ -229,8 +230,47 @@ def _call(fn, *a):
         return ("exc", type(ex).__name__, str(ex))
 
 
+# Histories whose last step was already compared and invariant-checked in this process.  Both search
+# procedures only ever *replay* such histories as prefixes, so the (deterministic) checks are not repeated
+# for them; the operations themselves are always executed on the real objects.
+_VALIDATED: set = set()
+
+
 def step(w: World, op):
     """Apply op to the real registry and to the dict model; compare; check the invariants."""
+    w.trace = w.trace + (op,)
+    if w.trace in _VALIDATED:
+        _apply_unchecked(w, op)
+        return None, None
+    obs, problem = _step_checked(w, op)
+    if problem is None:
+        _VALIDATED.add(w.trace)
+    return obs, problem
+
+
+def _apply_unchecked(w: World, op):
+    e = env()
+    kind, r = op[0], op[1]
+    reg, model = w.regs[r], w.model[r]
+    try:
+        if kind == "register":
+            reg.register(op[2], e.classes[op[3]])
+            model[op[2]] = e.classes[op[3]]
+        elif kind == "unregister":
+            reg.unregister(op[2])
+            del model[op[2]]
+        elif kind == "get":
+            reg.get(op[2])
+        elif kind == "all":
+            reg.all()
+        elif kind == "clear":
+            reg.clear()
+            model.clear()
+    except Exception:  # noqa  (a validated step that raised left impl and model unchanged)
+        pass
+
+
+def _step_checked(w: World, op):
     e = env()
     kind, r = op[0], op[1]
     reg, model = w.regs[r], w.model[r]
@@ -371,6 +411,7 @@ def nontrivial_state(k) -> bool:
 
 # ----------------------------------------------------------------------------- tasks
 def _bfs_task(cfg):
+    _VALIDATED.clear()  # one configuration per task
     ops = ops_for(cfg)
     r = seq.bfs(make_world(cfg), ops, step, canon, max_states=400000)
     del env().all_registries[env().base_len:]
@@ -384,6 +425,7 @@ def _bfs_task(cfg):
 
 def _unmerged_task(arg):
     cfg, depth, first = arg
+    _VALIDATED.clear()
     ops = ops_for(cfg)
     n_seq, n_tr, failures, outcomes, canon_states = seq.all_sequences(
         make_world(cfg), ops, step, depth, first_ops=[first], canon=canon
@@ -424,6 +466,7 @@ def _template_task(arg):
     cfg, histories = arg
     from mc import boot
 
+    _VALIDATED.clear()
     ops = ops_for(cfg)
     failures = []
     n = checked = nontriv = 0
@@ -455,10 +498,11 @@ def _template_task(arg):
 
 # ----------------------------------------------------------------------------- driver
 def _identity(cfg, problem):
+    """Stable across tiers: topology / formatters / library set-up | violated clause."""
     clause = problem.split(":")[0]
     if problem.startswith("ret:"):
         clause = ":".join(problem.split(":")[:2])
-    return f"{cfg_name(cfg)}|{clause}"
+    return f"{cfg_name(cfg).split('/n=')[0]}|{clause}"
 
 
 def run(ctx):
@@ -535,6 +579,7 @@ def run(ctx):
 
 def replay(ctx, case):
     cfg = case["cfg"]
+    _VALIDATED.clear()
     w = World(cfg)
     ok = True
     for op in case["history"]:
